@@ -25,6 +25,14 @@ Streams
                  values `a == 1 - threshold`, out-of-range ratios, overlapping cells) and Q stream (dyadic data with
                  power-of-two areas: float arithmetic exact, compared exactly with the model run at `Rat`);
                  rigidity / centroid / sub-list clauses evaluated on the implementation's outputs.
+  post-live /    WHAT IS POSTED TO GEKKO: `tools.glbfloor.optimization.GEKKO` is replaced by a recording subclass
+  post-synth     (`harness/glb_post.py`); FRAME's `g.Var / g.sum / g.Equation / g.Minimize` calls are parsed, variables named by
+                 role, and compared node-for-node (order included; `==` rows unordered; numbers within 1e-9) with the Lean
+                 generator `FV/Model/GlbOpt.lean` (driver op `post`): variable declarations with bounds, float constants of
+                 `model.x/y/a`, capacity / area / centroid / centre-offset / hard-sum / rigid-offset equations with their
+                 bodies; dispersion equations, hyperedge equations and objective terms as body-less stubs (presence and
+                 position only).  A missing or extra equation is a disagreement.  Monitor: every posted equation and bound
+                 evaluated on the solver's point (coverage.posted_monitor).
   consts-synth   `optimize_allocation` up to the solve call (stubbed) on allocations whose ratios sit exactly on the
                  decision boundaries (`== threshold`, `== 1 - threshold`): the same table comparison, no solver.
   sum            Python 3.12 `sum()` of floats vs the model's Neumaier `pySum` (bit exact).
@@ -38,6 +46,7 @@ from fractions import Fraction
 from types import SimpleNamespace
 
 from vcheck import Ctx, f2hex, hex2f, q2s
+import glb_post
 from frame.geometry.geometry import Rectangle, Point, Shape
 from frame.netlist.module import Module
 from frame.netlist.netlist import Netlist
@@ -57,6 +66,10 @@ TRUSTED = [
     "correspondence runs); what remains a parameter: the solver, and the start (any ValidAlloc inside the die — "
     "`create_initial_allocation` is property C03's)",
     "theorems are over exact ordered fields; IEEE rounding is executed (F stream), never proved",
+    "FV/Model/GlbOpt.lean models what optimize_allocation posts (declarations, constants, capacity/area/centroid/offset/"
+    "hard-sum equations; NOT the bodies of the dispersion equations, hyperedge equations and the objective) — tied to the real "
+    "GEKKO model by the post-live/post-synth structure streams; `posted_constraints_imply_solverPost` turns the solver "
+    "hypothesis into: the returned point satisfies what was posted, within tolerance (monitored), and non-convergence raises",
     "harness (Python): wrapping of extract_solution / optimize_allocation, comparison, exact clause evaluation",
 ]
 
@@ -135,6 +148,30 @@ def consts_request(case: dict, mode: str = "F") -> str:
         s += " " + _rect_tok(rect, mode) + f" {len(alloc)}" + "".join(f" {n} {_sc(v, mode)}" for n, v in alloc)
     s += f" {len(case['mods'])}" + "".join(" " + _mod_tok(m, mode) for m in case["mods"])
     return s
+
+
+def post_request(case: dict, mode: str = "F") -> str:
+    s = f"{mode} post {_rect_tok(case['die_bb'], mode)} {_sc(case['eps_d'], mode)} {_sc(case['thr'], mode)} {len(case['offered'])}"
+    for rect, alloc, _depth in case["offered"]:
+        s += " " + _rect_tok(rect, mode) + f" {len(alloc)}" + "".join(f" {n} {_sc(v, mode)}" for n, v in alloc)
+    s += f" {len(case['mods'])}" + "".join(" " + _mod_tok(m, mode) + " " + _sc(case["areas"][m["name"]], mode) for m in case["mods"])
+    s += f" {len(case['edges'])}" + "".join(f" {n}" for n in case["edges"])
+    return s
+
+
+def capture_posted(case: dict, model, die, get_value=None) -> None:
+    """what was posted to GEKKO for this model, in the reply format of the driver op `post` (+ the monitor)."""
+    g = model.gekko
+    if not isinstance(g, glb_post.RecGEKKO):
+        return
+    canon = glb_post.Canon(g)
+    case["posted"] = canon.posted(model)
+    case["areas"] = {m.name: float(m.area()) for m in die.netlist.modules}
+    case["edges"] = [len(e.modules) for e in die.netlist.edges]
+    if "die_bb" not in case:
+        case["die_bb"] = rect_d(die.bounding_box)
+    if get_value is not None:
+        case["posted_res"] = canon.residuals(get_value)
 
 
 def render_result(alloc_list, mods, mode: str) -> str:
@@ -655,6 +692,8 @@ def consts_synth_case(inst: dict, rng):
         raise _Stop()
 
     opt.solve_and_extract_solution = stub
+    o_gekko = opt.GEKKO
+    opt.GEKKO = glb_post.RecGEKKO
     try:
         try:
             allocation = Allocation(lst)
@@ -687,9 +726,11 @@ def consts_synth_case(inst: dict, rng):
             else:
                 objs[m.name] = m
         case["table"] = build_table(opt, model, allocation, movable, objs, n)
+        capture_posted(case, model, die)
         return case
     finally:
         opt.solve_and_extract_solution = o_sol
+        opt.GEKKO = o_gekko
         if "model" in captured:
             try:
                 captured["model"].gekko.cleanup()
@@ -733,6 +774,10 @@ def one_consts(ctx: Ctx, inst: dict, seed: int, reqs, todo) -> None:
                 ctx.spec_fail("fixed-entries-are-constants", inp, {"module": m["name"]})
     reqs.append(consts_request(case))
     todo.append(("consts-synth", inp, consts_expected(case), "F", len(case["cells"]) + len(case["mods"])))
+    if "posted" in case:
+        reqs.append(post_request(case))
+        todo.append(("post-synth", inp, case["posted"], "F", len(case["cells"]) + len(case["mods"])))
+        ctx.case("post-synth", (str(case["offered"]), case["thr"], "post"), True)
     ctx.case("consts-synth", (str(case["offered"]), case["thr"]), True)
     ctx.count("consts-synth:ok")
 
@@ -827,6 +872,7 @@ def run_instance(inst: dict) -> dict:
                 objs[nm] = m
             case["mods"].append(d)
         case["table"] = build_table(opt, model, allocation, movable, objs, n)
+        capture_posted(case, model, die, gv)
         try:
             res = o_ext(model, die, cells, threshold)
         except AssertionError:
@@ -843,6 +889,8 @@ def run_instance(inst: dict) -> dict:
         return res
 
     opt.optimize_allocation, opt.extract_solution, opt.solve_and_extract_solution = w_opt, w_ext, w_sol
+    o_gekko = opt.GEKKO
+    opt.GEKKO = glb_post.RecGEKKO
     try:
         try:
             die = build_instance(inst)
@@ -877,6 +925,7 @@ def run_instance(inst: dict) -> dict:
         return out
     finally:
         opt.optimize_allocation, opt.extract_solution, opt.solve_and_extract_solution = o_opt, o_ext, o_sol
+        opt.GEKKO = o_gekko
         Allocation.must_be_refined, Allocation.refine = o_must, o_ref
         Rectangle.undefine_epsilon()
 
@@ -1040,6 +1089,21 @@ def check_calls(ctx: Ctx, inst: dict, out: dict, reqs: list, todo: list) -> None
         reqs.append(consts_request(case))
         todo.append(("consts-live", {"kind": "glb", "inst": inst}, exp, "F", len(case["cells"]) + len(case["mods"])))
         ctx.case("consts-live", (inst["idx"], k, "consts"), bool(case["table"]))
+        # what was posted to GEKKO vs the Lean generator; the solver's point on what was posted
+        if "posted" in case:
+            reqs.append(post_request(case))
+            todo.append(("post-live", {"kind": "glb", "inst": inst}, case["posted"], "F", len(case["cells"]) + len(case["mods"])))
+            ctx.case("post-live", (inst["idx"], k, "post"), True)
+            pm = ctx.extra.setdefault("posted_monitor", {"answers": 0, "within_1e-5": 0, "worst": 0.0, "worst_where": None,
+                                                         "equations_evaluated": 0})
+            res = case.get("posted_res")
+            if res is not None and case["appstatus"] == 1:
+                pm["answers"] += 1
+                pm["equations_evaluated"] += res["equations"]
+                if res["worst"] <= 1e-5:
+                    pm["within_1e-5"] += 1
+                if res["worst"] > pm["worst"]:
+                    pm["worst"], pm["worst_where"] = res["worst"], res["where"]
         # SolverPost monitor
         bad = solver_post(case)
         st = ctx.extra.setdefault("solver_post", {"answers": 0, "satisfied": 0, "anomalies": [], "appstatus_not_1": 0})
@@ -1071,6 +1135,8 @@ def check_calls(ctx: Ctx, inst: dict, out: dict, reqs: list, todo: list) -> None
 
 def compare(ctx: Ctx, todo, replies) -> None:
     for (stream, inp, impl, mode, size), model in zip(todo, replies):
+        if stream.startswith("post-"):
+            impl, model = glb_post.norm_posted(impl), glb_post.norm_posted(model)
         if impl == model:
             continue
         ok, exact = lines_close(impl, model, mode, 0.0 if mode == "Q" else 1e-9)
